@@ -297,7 +297,7 @@ def rule_idxspace(facts, rule="C08-IDXSPACE", only=None, floor=16):
     r = RuleResult(rule, "no index value is used in both the sort-key and the heap-layout index space of SortLayout; "
                    "a heap_mapping payload never indexes a key-space vector", floor=floor)
     sites = []
-    for rec in facts.all_fns(None):
+    for rec in facts.all_fns(["glaredb_core"], contains=SL):
         if rec.get("krate") != "glaredb_core" or SL not in str(rec["bbs"]):
             continue
         if only and not only(rec["id"]):
@@ -347,7 +347,7 @@ def rule_ties(facts):
     kept (pair i needs flag i, so n kept rows need n flags - the pair formed with the first dropped row decides who is kept)."""
     r = RuleResult("C08-TIES", "the early exit of the column-by-column sort tests every tie flag that involves a kept row (whole vector, or a prefix "
                    "not shortened by subtraction)", floor=2)
-    for rec in facts.all_fns(["glaredb_core"]):
+    for rec in facts.all_fns(["glaredb_core"], contains="::arrays::sort::"):
         if "::arrays::sort::" not in rec["id"] or "::tests::" in rec["id"]:
             continue
         fn = Fn(rec)
